@@ -1225,7 +1225,7 @@ class NamespaceManager(dict):
                         return namespace[str_value[len(namespace.uri) :]]
         elif self._default:
             # create and return an identifier in the default namespace
-            return self._default[qname]
+            return self._default[str_value]
 
         if self.parent:
             # all attempts have failed so far
